@@ -549,6 +549,18 @@ theorem other_product_dir_untouched_example :
     PathAct.expandMacros PathAct.cxx (Str.ofString "${C_DIR}/lib") = Str.ofString "${C_DIR}/lib" ∧
     PathAct.expandMacros PathAct.cxx (Str.ofString "${C++_DIR}/bin") = Str.ofString "/opt/c/bin" := by decide
 
+
+/-- Frame for a whole run (a table's actions in order, any directions): a variable that no action targets keeps its
+value; without addAlias lines the aliases are untouched. -/
+theorem run_frame (acts : List (Bool × PathAct.Act)) (s s' : PathAct.St) (k : Str)
+    (h : PathAct.run acts s = .ok s') (hk : ∀ a ∈ acts, k ≠ a.2.target) : s'.env.get k = s.env.get k :=
+  PathAct.run_other_var acts s s' k h hk
+
+theorem run_aliases_frame (acts : List (Bool × PathAct.Act)) (s s' : PathAct.St)
+    (h : PathAct.run acts s = .ok s') (hal : ∀ a ∈ acts, ∀ key ws, a.2 ≠ .alias key ws) :
+    s'.aliases = s.aliases :=
+  PathAct.run_aliases_untouched acts s s' h hal
+
 /-! ## delimiters of several characters, values of several elements (`Lemmas/PathAlgMulti.lean`) -/
 
 /-- `d.join(l).split(d) = l` for a delimiter of any length when no piece holds the delimiter's first character … -/
